@@ -1,0 +1,39 @@
+//go:build verif
+
+// Verification hook (build tag "verif" only): the loader's link step with a
+// caller-given visiting order instead of Go's map iteration order.
+
+package engine
+
+import (
+	"github.com/GuanceCloud/platypus/pkg/engine/runtime"
+	"github.com/GuanceCloud/platypus/pkg/token"
+)
+
+// LinkInOrder is EngineCallRefLinkAndCheck with the scripts visited in the
+// given order; it calls the same dfs.
+func LinkInOrder(order []string, allNg map[string]*runtime.Script, allErrNg map[string]error) (map[string]*runtime.Script, map[string]error) {
+	retMap := map[string]*runtime.Script{}
+	retErrMap := map[string]error{}
+
+	for _, name := range order {
+		proc, ok := allNg[name]
+		if !ok {
+			continue
+		}
+		p := &param{
+			name:     name,
+			namePos:  token.InvalidLnColPos,
+			allNg:    allNg,
+			allErrNg: allErrNg,
+			retMap:   retMap,
+		}
+		sPath := newSearchPath()
+		if err := dfs(name, proc, sPath, p); err != nil {
+			retErrMap[name] = err
+		} else {
+			retMap[name] = proc
+		}
+	}
+	return retMap, retErrMap
+}
